@@ -451,11 +451,11 @@ def aggregation(run, repo):
             return a - b
         return f
 
-    def build(I, references=True, misc=True):
+    def build(I, references=True, misc=True, mode_params=('T', 'P')):
         D = I.D
         modes = {}
         for a in MODE_ATTRS:
-            modes[a] = opaque_obj(I, a, {m: ('T', 'P') for m in methods + ['get_ZPE']},
+            modes[a] = opaque_obj(I, a, {m: tuple(mode_params) for m in methods + ['get_ZPE']},
                                   rewrite={'get_GoRT': twin_rewrite('get_HoRT', 'get_SoR'),
                                            'get_FoRT': twin_rewrite('get_UoRT', 'get_SoR')})
         attrs = dict(modes)
@@ -471,11 +471,16 @@ def aggregation(run, repo):
         else:
             attrs['references'] = None
         if misc:
-            mm = opaque_obj(I, 'misc0', {m: ('T', 'P') for m in methods},
-                            rewrite={'get_GoRT': twin_rewrite('get_HoRT', 'get_SoR'),
-                                     'get_FoRT': twin_rewrite('get_UoRT', 'get_SoR')})
-            mm.attrs['name_j'] = 'other'
-            attrs['misc_models'] = ListV([mm])
+            # one attached model, or several (the normal use: one coverage effect per neighbouring species), each
+            # with values of its own
+            mms = []
+            for j in range(int(misc)):
+                mm = opaque_obj(I, 'misc%d' % j, {m: ('T', 'P') for m in methods},
+                                rewrite={'get_GoRT': twin_rewrite('get_HoRT', 'get_SoR'),
+                                         'get_FoRT': twin_rewrite('get_UoRT', 'get_SoR')})
+                mm.attrs['name_j'] = 'other' if j == 0 else 'other%d' % (j + 1)
+                mms.append(mm)
+            attrs['misc_models'] = ListV(mms)
         else:
             attrs['misc_models'] = None
         sp = Obj('sp', ci, attrs=attrs)
@@ -488,13 +493,13 @@ def aggregation(run, repo):
         owner, fn = repo.find_method(ci, mname)
         run.fn(owner.qual + '.' + mname)
         for references in ('elements', 'groups', False):
-            for misc in (True, False):
+            for misc in (1, 2, 0):
                 I = Interp(repo)
                 D = I.D
                 T, P = D.sym('T'), D.sym('P')
                 sp, modes = build(I, references, misc)
                 key = '%s refs=%s misc=%s' % (mname, {'elements': True, 'groups': 'by groups', False: False}[references],
-                                              misc)
+                                              {1: True, 0: False}.get(misc, misc))
                 kw = {'T': T, 'P': P}
                 verbose = I.call_method(sp, mname, [], dict(kw, verbose=True))
                 total = I.call_method(sp, mname, [], dict(kw))
@@ -508,7 +513,7 @@ def aggregation(run, repo):
                 else:
                     exp.append(ident)
                 if misc:
-                    exp.append(val(I, sp.attrs['misc_models'].items[0], mname, kw))
+                    exp.extend(val(I, mm_, mname, kw) for mm_ in sp.attrs['misc_models'].items)
                 else:
                     exp.append(ident)
                 ok = isinstance(verbose, ListV) and len(verbose) == len(exp) and \
@@ -546,6 +551,30 @@ def aggregation(run, repo):
                   'conditions addressed to this species (sp_kwargs) do not reach its modes, or another '
                   'species\' block does: %s' % show(got, 300), owner.module, fn)
         n += 1
+        # an option of the modes (include_ZPE: the harmonic partition function with or without the zero-point
+        # factor) given to the species reaches every mode that expects it, with the value given
+        for flag in (False, True):
+            I = Interp(repo)
+            D = I.D
+            T, P = D.sym('T'), D.sym('P')
+            sp, modes = build(I, False, False, mode_params=('T', 'P', 'include_ZPE'))
+            kw = {'T': T, 'P': P, 'include_ZPE': flag}
+            got = I.call_method(sp, mname, [], dict(kw, verbose=True))
+            total = I.call_method(sp, mname, [], dict(kw))
+            exp = [val(I, modes[a], mname, kw) for a in MODE_ATTRS]
+            ok = isinstance(got, ListV) and len(got) >= 5 and all(same(a, b) for a, b in zip(got.items[:5], exp))
+            run.check(ok, 'AGG.option', 'StatMech.' + mname, 'include_ZPE=%s verbose' % flag,
+                      'include_ZPE=%s given to the species does not reach the modes that expect it: %s'
+                      % (flag, show(got, 300)), owner.module, fn,
+                      sample={'method': mname, 'include_ZPE': flag, 'verbose': show(got, 300)}
+                      if mname == 'get_q' and not flag else None)
+            agg = ident
+            for e in exp:
+                agg = I.binop('*' if op == 'prod' else '+', agg, e)
+            run.check(same(total, agg), 'AGG.option', 'StatMech.' + mname, 'include_ZPE=%s total' % flag,
+                      'the species total with include_ZPE=%s is not the %s of the modes evaluated with that option: '
+                      '%s' % (flag, op, show(total, 300)), owner.module, fn)
+            n += 2
         # a mode that does not offer the quantity: an error by default; with raise_error=False it contributes the
         # neutral element of the operation, announced by a warning unless raise_warning=False
         for re_, rw_ in ((True, True), (False, True), (False, False)):
@@ -640,6 +669,63 @@ def aggregation(run, repo):
 # ----------------------------------------------------------------------
 # imaginary-frequency filter + cached fields, through the real constructors
 
+def imaginary_counts(run, repo):
+    """The number and the place of the imaginary entries vary: every imaginary entry is dropped (no substitute) or
+    every one of them is replaced by the substitute - also when the substitute is already among the modes that count
+    (a second imaginary entry, a real mode that happens to have the substitute's value).  Observed through the public
+    getters only: each is the sum (q: the product) over the modes that count of the value of a one-mode model."""
+    n = 0
+    ranks = {'w_real': 5, 'w_imag': -5, 'w_imag2': -7, 'w_sub': 3}
+    for cname in ('HarmonicVib', 'QRRHOVib'):
+        ci = repo.cls(SM + '.vib.' + cname)
+        owner, fn = repo.find_method(ci, 'vib_wavenumbers.setter')
+        for vname, vec, with_sub, without in (
+                ('[imaginary, real, imaginary]', ('w_imag', 'w_real', 'w_imag2'), ('w_sub', 'w_real', 'w_sub'),
+                 ('w_real',)),
+                ('[imaginary, imaginary, real]', ('w_imag', 'w_imag2', 'w_real'), ('w_sub', 'w_sub', 'w_real'),
+                 ('w_real',)),
+                ('[real equal to the substitute, imaginary]', ('w_sub', 'w_imag'), ('w_sub', 'w_sub'), ('w_sub',)),
+                ('[imaginary, real equal to the substitute]', ('w_imag', 'w_sub'), ('w_sub', 'w_sub'), ('w_sub',))):
+            for sub_given in (True, False):
+                I = Interp(repo, order=RankOrder(dict(ranks), const_ranks=True))
+                D = I.D
+                T = D.sym('T')
+                sub_v = D.sym('w_sub') if sub_given else None
+                valid = [D.sym(k) for k in (with_sub if sub_given else without)]
+                key = '%s substitute=%s' % (vname, 'given' if sub_given else 'None')
+                o = Obj('self', ci, closed=True)
+                r = I.call_method(o, '__init__', [], {'vib_wavenumbers': ListV([D.sym(k) for k in vec]),
+                                                      'imaginary_substitute': sub_v})
+                quantities = [('ZPE', {}), ('UoRT', {'T': T}), ('SoR', {'T': T}), ('CvoR', {'T': T})]
+                if cname == 'HarmonicVib':
+                    quantities.append(('q', {'T': T}))
+                if isinstance(r, Raised):
+                    run.fail('ORDER.filter', cname + '.vib_wavenumbers', key,
+                             'constructing the model from %s wavenumbers raises %s' % (vname, r.exc),
+                             owner.module, fn)
+                    n += len(quantities)
+                    continue
+                for q, kw in quantities:
+                    got = I.call_method(o, 'get_' + q, [], dict(kw))
+                    want = C(1) if q == 'q' else C(0)
+                    for wv in valid:
+                        one = Obj('one', ci, closed=True)
+                        I.call_method(one, '__init__', [], {'vib_wavenumbers': ListV([wv]),
+                                                            'imaginary_substitute': None})
+                        want = I.binop('*' if q == 'q' else '+', want, I.call_method(one, 'get_' + q, [], dict(kw)))
+                    o2, f2 = repo.find_method(ci, 'get_' + q)
+                    run.check(same(got, want), 'ORDER.filter', cname + '.vib_wavenumbers', key + ' ' + q,
+                              'every imaginary entry must be %s, whatever else the vector holds: get_%s of a model '
+                              'built from %s is %s, expected the %s of the one-mode values over %s'
+                              % ('replaced by the substitute' if sub_given else 'dropped', q, vname, show(got, 160),
+                                 'product' if q == 'q' else 'sum', show(ListV(valid))), owner.module, fn,
+                              sample='%s(%s, %s).get_%s == %s over %s'
+                              % (cname, vname, 'substitute' if sub_given else 'no substitute', q,
+                                 'product' if q == 'q' else 'sum', show(ListV(valid))) if q == 'ZPE' else None)
+                    n += 1
+    return n
+
+
 def cached_fields(run, repo):
     n = 0
     for cname, extra in (('HarmonicVib', {}), ('QRRHOVib', {})):
@@ -710,6 +796,7 @@ def cached_fields(run, repo):
                           'after assigning new wavenumbers the getter still uses stale cached field(s) %s' % stale,
                           owner.module, fn)
                 n += 1
+    n += imaginary_counts(run, repo)
     # electronic degeneracy 2*spin+1, refreshed by the spin setter
     ci = repo.cls(SM + '.elec.GroundStateElec')
     I = Interp(repo)
@@ -835,6 +922,117 @@ def geometry_from_atoms(run, repo):
     return n
 
 
+def rot_from_atoms(run, repo):
+    """Rotational temperatures and geometry taken from a structure: theta_k = h^2 / (8 pi^2 kB I_k) for the principal
+    moments of inertia I_k (amu A^2 -> kg m^2) that are not zero - three for a nonlinear molecule, one for a linear
+    one, none (reported as [0]) for an atom.  The structure answers with its principal moments (what ASE computes;
+    they do not depend on how the molecule is placed or its atoms are numbered) and, separately, with coordinates and
+    masses that are generic symbols: temperatures that are the textbook function of the principal moments are
+    invariant; temperatures that come out as a rational function of the coordinates are not (principal moments are
+    not rational in the coordinates); anything else is outside what is decided here (analysis error)."""
+    m = repo.module(SM + '.rot')
+    fn = m.functions.get('get_rot_temperatures_from_atoms')
+    if fn is None:
+        raise AnchorError(SM + '.rot.get_rot_temperatures_from_atoms not found')
+    ci = repo.cls(SM + '.rot.RigidRotor')
+    n = 0
+    coords = ('x1', 'y1', 'z1', 'x2', 'y2', 'z2', 'm_at')
+
+    def atoms_obj(I, natoms, angle, moments):
+        s = I.D.sym
+        o = Obj('atoms')            # an accessor that is not modelled here ends the analysis, it is not an AttributeError
+        o.opaque_methods['__len__'] = lambda I_, ob, a, k: C(natoms)
+        o.opaque_methods['get_angle'] = lambda I_, ob, a, k: C(angle)
+        o.opaque_methods['get_moments_of_inertia'] = lambda I_, ob, a, k: ListV([C(x) for x in moments])
+        # three atoms of one element, centre of mass at the origin, otherwise anywhere
+        r1, r2 = [s('x1'), s('y1'), s('z1')], [s('x2'), s('y2'), s('z2')]
+        r3 = [-(a_ + b_) for a_, b_ in zip(r1, r2)]
+        o.opaque_methods['get_positions'] = lambda I_, ob, a, k: ListV([ListV(list(r)) for r in (r1, r2, r3)][:natoms])
+        o.opaque_methods['get_masses'] = lambda I_, ob, a, k: ListV([s('m_at')] * natoms)
+        o.opaque_methods['get_center_of_mass'] = lambda I_, ob, a, k: ListV([C(0), C(0), C(0)])
+        return o
+
+    def generic_point(I):
+        """the coordinates are a generic point: an expression in them that is not identically zero is not within a
+        tolerance of zero (the moments the structure reports are numbers; the library's own model decides those)"""
+        base = I.native['numpy.isclose']
+
+        def isclose(I_, fr, args, kwargs, n_):
+            a, b = args[0], args[1]
+            kwargs.get('rtol'), kwargs.get('atol')
+            if isinstance(a, Rat) and isinstance(b, Rat):
+                for p_, q_ in ((a, b), (b, a)):
+                    if p_.iszero() and not q_.iszero() and q_.atoms() and \
+                            all(x_ in coords or x_.startswith('U<') for x_ in q_.atoms()):
+                        return False
+            return base(I_, fr, args, kwargs, n_)
+        I.native['numpy.isclose'] = isclose
+
+    def judge(I, got, want, construct, key, what, mod_, node):
+        """equal as multisets -> holds; a rational function of the coordinates -> violation; else undecided"""
+        ok = isinstance(got, ListV) and len(got) == len(want) and \
+            sorted(repr(x) for x in got.items) == sorted(repr(x) for x in want)
+        if not ok and not isinstance(got, Raised):
+            ats = atoms_of(got) if isinstance(got, ListV) else set()
+            known = set(coords) | {'h', 'kb', 'pi'}
+            if not isinstance(got, ListV) or any(a_ not in known and not a_.startswith('U<') for a_ in ats):
+                raise Unsupported('rotational temperatures from a structure: %s is neither the textbook function of '
+                                  'the principal moments nor a rational function of the coordinates' % show(got, 200))
+        run.check(ok, 'REF.rot-temperatures', construct, key,
+                  '%s: got %s, expected h^2/(8 pi^2 kB I) for each non-zero principal moment of inertia = %s%s'
+                  % (what, show(got, 200), show(ListV(list(want)), 200),
+                     '; the result is built from the coordinates as given, so it changes when the molecule is turned'
+                     if isinstance(got, ListV) and atoms_of(got) & set(coords) else ''), mod_, node,
+                  sample='%s %s -> %s' % (construct, key, show(ListV(list(want)), 120)) if 'nonlinear' in key else None)
+
+    cases = (('nonlinear', 3, Fr(104), (Fr(3, 5), Fr(7, 6), Fr(53, 30))),
+             ('linear', 3, Fr(180), (Fr(0), Fr(7, 6), Fr(7, 6))),
+             ('linear', 2, Fr(180), (Fr(0), Fr(11, 10), Fr(11, 10))),
+             ('monatomic', 1, Fr(0), (Fr(0), Fr(0), Fr(0))))
+    owner, init = repo.find_method(ci, '__init__')
+    run.fn(SM + '.rot.get_rot_temperatures_from_atoms', owner.qual + '.__init__')
+    for geom, natoms, angle, moments in cases:
+        for route in ('RigidRotor(atoms=...)', 'get_rot_temperatures_from_atoms(atoms)',
+                      'get_rot_temperatures_from_atoms(atoms, geometry)'):
+            I = Interp(repo, order=RankOrder({}, const_ranks=True))
+            D = I.D
+            generic_point(I)
+            h, kb, pi = D.sym('h'), D.sym('kb'), D.sym('pi')
+            conv = I.unit('kg') / I.unit('amu') * I.unit('m2') / I.unit('A2')     # amu A^2 -> kg m^2
+            want = [h * h / (8 * pi * pi * kb * (C(x) * conv)) for x in moments if x != 0]
+            if geom == 'linear':
+                want = want[:1]
+            elif geom == 'monatomic':
+                want = [C(0)]
+            at = atoms_obj(I, natoms, angle, moments)
+            key = '%s, %d atom(s)' % (geom, natoms)
+            if route.startswith('RigidRotor'):
+                o = I.construct(ci, [], {'symmetrynumber': C(1), 'atoms': at}, name='rotor')
+                if isinstance(o, Raised):
+                    run.fail('REF.rot-temperatures', 'RigidRotor.__init__', key,
+                             'RigidRotor(symmetrynumber=1, atoms=<%s structure>) raises %s' % (geom, o.exc),
+                             owner.module, init)
+                    n += 2
+                    continue
+                g = get_public(I, o, 'geometry')
+                run.check(g == geom, 'REF.rot-temperatures', 'RigidRotor.__init__', key + ' geometry',
+                          'the geometry taken from a %s structure is %s' % (geom, show(g)), owner.module, init)
+                judge(I, get_public(I, o, 'rot_temperatures'), want, 'RigidRotor.__init__', key,
+                      'rotational temperatures of RigidRotor(symmetrynumber=1, atoms=<%s structure>)' % geom,
+                      owner.module, init)
+                n += 2
+            else:
+                kw = {'atoms': at}
+                if route.endswith('geometry)'):
+                    kw['geometry'] = geom
+                got = I.call_function(m, fn, [], kw)
+                judge(I, got, want, 'rot.get_rot_temperatures_from_atoms',
+                      key + (' geometry given' if 'geometry' in kw else ''),
+                      'rotational temperatures of a %s structure' % geom, m, fn)
+                n += 1
+    return n
+
+
 def check(run, repo):
     run.explanation = (
         'Every getter of every mode class (and of the models that can sit in misc_models) is interpreted '
@@ -871,6 +1069,8 @@ def check(run, repo):
     symmetry_labels(run, repo)
     n = geometry_from_atoms(run, repo)
     run.floor('collinearity instances', n, 40)
+    n = rot_from_atoms(run, repo)
+    run.floor('structure-derived rotational temperatures', n, 16)
 
 
 V = 'pmutt/statmech/vib.py'
